@@ -41,12 +41,6 @@ Proof.
   cbn [map flat_map]. rewrite IH. destruct o; reflexivity.
 Qed.
 
-(* the value a failure is given, in the user's (maximisation) terms *)
-Inductive upol := UMin | UMean.
-Definition upol_to_opt (p : upol) : fpol := match p with UMin => PMax | UMean => PMean end.
-Definition fill_user (p : upol) (good : list Q) : Q :=
-  match good with [] => 0 | _ => match p with UMin => qminl good | UMean => qmean good end end.
-
 Lemma fill_dual p good : - fill_value (upol_to_opt p) (map Qopp good) == fill_user p good.
 Proof.
   destruct good as [|a t]; [cbn; destruct p; cbn; lra|].
